@@ -210,10 +210,18 @@ def axis_iteration(ctx: Ctx) -> None:
                     if want not in t:
                         problems.append(f'for axis {ax} the tuple fields are not {inner[ax]}.values')
                 else:   # to_pairs
-                    if f'zip(tuple({outer[ax]}), ' not in t or f'zip(tuple({inner[ax]}), ' not in t or 'self._blocks.axis_values(axis)' not in t:
+                    # structure, not text order: one zip pairs the major keys with the per-vector values (axis_values), another pairs the minor keys with the cells
+                    # of one vector — whether written as zip(major, (tuple(zip(minor, v)) for v in values)) or as a comprehension over zip(major, values)
+                    zips = [z for z in ast.walk(v) if isinstance(z, ast.Call) and call_name(z) == 'zip' and len(z.args) == 2] if v is not None else []
+                    z_major = [z for z in zips if 'self._blocks.axis_values(axis)' in norm(z.args[1])]
+                    z_minor = [z for z in zips if 'self._blocks.axis_values(axis)' not in norm(z.args[0]) and z not in z_major]
+                    if not z_major or not z_minor or 'self._blocks.axis_values(axis)' not in t:
                         problems.append(f'for axis {ax} the pairs are `{t[:80]}`: major keys are not {outer[ax]} / minor keys not {inner[ax]} / values not axis_values(axis)')
-                    elif t.index(f'zip(tuple({outer[ax]}), ') > t.index(f'zip(tuple({inner[ax]}), '):
-                        problems.append(f'for axis {ax} major and minor keys are nested the wrong way round')
+                    elif norm(z_major[0].args[0]) != f'tuple({outer[ax]})' or not any(norm(z.args[0]) == f'tuple({inner[ax]})' for z in z_minor):
+                        if norm(z_major[0].args[0]) == f'tuple({inner[ax]})':
+                            problems.append(f'for axis {ax} major and minor keys are nested the wrong way round')
+                        else:
+                            problems.append(f'for axis {ax} the pairs are `{t[:80]}`: major keys are not {outer[ax]} / minor keys not {inner[ax]} / values not axis_values(axis)')
                 n += 1
                 (ctx.bad if problems else ctx.ok)(R, f, node, '; '.join(problems) or f'axis {ax}: keyed by {outer[ax]}, labelled by {inner[ax]}', key=f'Frame.{m}@axis{ax}')
     ctx.require(n >= 12, 'axis iterator result sites')
